@@ -115,6 +115,15 @@ func (g *G) fresh(p string) string {
 	g.nName++
 	return fmt.Sprintf("%s%d", p, g.nName)
 }
+// scope runs f with a fresh name counter: names are unique within one function or process
+// body only, so different bodies use the same identifiers (as hand-written code does).
+func (g *G) scope(f func()) {
+	saved := g.nName
+	g.nName = 0
+	f()
+	g.nName = saved
+}
+
 func (g *G) label() string { g.nLbl++; return fmt.Sprintf("p%d", g.nLbl) }
 func (g *G) feat(s string) { g.P.Feat[s]++ }
 func (g *G) die(why string) { panic(abort{why}) }
@@ -320,7 +329,7 @@ func (g *G) mkFunc(A *Ty, fuel int) string {
 	fn := fmt.Sprintf("mk%d", g.nFn)
 	f := &Func{Name: fn, Ret: A}
 	g.P.Funcs = append(g.P.Funcs, f)
-	f.Body = g.gen(nil, A, fuel-1, "self")
+	g.scope(func() { f.Body = g.gen(nil, A, fuel-1, "self") })
 	g.mk[k] = fn // registered only when complete: a function under construction is never called
 	return fn
 }
@@ -337,9 +346,9 @@ func (g *G) consFunc(T *Ty, q Mode, fuel int) string {
 	g.P.Funcs = append(g.P.Funcs, f)
 	if g.libBase(T) != "" {
 		g.cons[k] = fn // structural recursion on a strict sub-term
-		f.Body = g.recConsumer(T, q, fn)
+		g.scope(func() { f.Body = g.recConsumer(T, q, fn) })
 	} else {
-		f.Body = g.elimX([]Var{{"x", T}}, 0, g.unit(q), fuel-1, true, "self")
+		g.scope(func() { f.Body = g.elimX([]Var{{"x", T}}, 0, g.unit(q), fuel-1, true, "self") })
 		g.cons[k] = fn
 	}
 	return fn
@@ -389,11 +398,13 @@ func (g *G) srvFunc(A *Ty) string {
 	g.mk[key] = fn
 	f := &Func{Name: fn, Ret: A}
 	g.P.Funcs = append(g.P.Funcs, f)
-	wn, n := g.producer(g.libType("nat", A.M), 2)
-	f.Body = &Term{Op: "case", X: "self", Brs: []CaseBr{
-		{"next", "z", g.pr(wn(&Term{Op: "new", Y: "s2", Body: &Term{Op: "call", Fn: fn}, Cont: &Term{Op: "send", X: "self", Y: n, Z: "s2"}}))},
-		{"stop", "z", g.pr(&Term{Op: "close", X: "self"})},
-	}}
+	g.scope(func() {
+		wn, n := g.producer(g.libType("nat", A.M), 2)
+		f.Body = &Term{Op: "case", X: "self", Brs: []CaseBr{
+			{"next", "z", g.pr(wn(&Term{Op: "new", Y: "s2", Body: &Term{Op: "call", Fn: fn}, Cont: &Term{Op: "send", X: "self", Y: n, Z: "s2"}}))},
+			{"stop", "z", g.pr(&Term{Op: "close", X: "self"})},
+		}}
+	})
 	return fn
 }
 
@@ -479,11 +490,18 @@ func (g *G) callTerm(f *Func, args []string, self string, tail bool) *Term {
 }
 
 func (g *G) helperBody(f *Func, fuel int) {
-	self := "self"
-	if f.Prov != "" {
-		self = f.Prov
-	}
-	f.Body = g.gen(cp(f.Params), f.Ret, fuel, self)
+	g.scope(func() {
+		// the parameters get names of the callee's own scope
+		for i := range f.Params {
+			f.Params[i].N = g.fresh("q")
+		}
+		self := "self"
+		if f.Prov != "" {
+			f.Prov = g.fresh("w")
+			self = f.Prov
+		}
+		f.Body = g.gen(cp(f.Params), f.Ret, fuel, self)
+	})
 }
 
 func (g *G) tailCall(ctx []Var, A *Ty, fuel int, self string) *Term {
@@ -743,10 +761,10 @@ func (g *G) program() *Program {
 		if g.libBase(T) == "srv" && len(ctx) == 0 {
 			body = &Term{Op: "call", Fn: g.srvFunc(T)}
 		} else if len(ctx) > 0 && g.coin(g.O.TopCall) {
-			body = g.tailCall(ctx, T, g.O.Fuel, "self")
+			g.scope(func() { body = g.tailCall(ctx, T, g.O.Fuel, "self") })
 			g.feat("top-call")
 		} else {
-			body = g.gen(ctx, T, g.O.Fuel, self)
+			g.scope(func() { body = g.gen(ctx, T, g.O.Fuel, self) })
 		}
 		g.P.Procs = append(g.P.Procs, &Proc{Names: names, T: T, Body: body})
 		for _, n := range names {
@@ -755,7 +773,8 @@ func (g *G) program() *Program {
 	}
 	asExec := g.coin(g.O.Exec) && len(avail) == 0
 	mainSelf := "self"
-	mainBody := g.gen(avail, g.unit(f0), g.O.Fuel+1, mainSelf)
+	var mainBody *Term
+	g.scope(func() { mainBody = g.gen(avail, g.unit(f0), g.O.Fuel+1, mainSelf) })
 	if asExec {
 		// main as a function run by exec
 		g.P.Funcs = append(g.P.Funcs, &Func{Name: "mainf", Ret: g.unit(f0), Body: mainBody})
